@@ -201,11 +201,22 @@ func (s *scope) CreateScope(ctx context.Context) (Scope, error) {
 
 	// Track child
 	s.childrenMu.Lock()
+	if s.children == nil {
+		// Scope was closed while the child was being created
+		s.childrenMu.Unlock()
+		_ = child.Close()
+		return nil, ErrScopeDisposed
+	}
 	s.children[child] = struct{}{}
 	s.childrenMu.Unlock()
 
 	// Track in provider
 	s.rootProvider.scopesMu.Lock()
+	if s.rootProvider.scopes == nil {
+		s.rootProvider.scopesMu.Unlock()
+		_ = child.Close()
+		return nil, ErrScopeDisposed
+	}
 	s.rootProvider.scopes[child] = struct{}{}
 	s.rootProvider.scopesMu.Unlock()
 
